@@ -760,7 +760,7 @@ func (net *vcNet) step(w *vcWriter, run int, st vcStep) bool {
 		return false
 	}
 	n.out, n.signs = nil, nil
-	ev := map[string]interface{}{"ev": st.Name, "run": run, "n": st.N, "k": "-", "peer": "-", "bound": net.bound}
+	ev := map[string]interface{}{"ev": st.Name, "run": run, "n": st.N, "k": "-", "peer": "-", "bound": net.bound, "nosched": false}
 	wasDecided := n.decided
 	switch st.Name {
 	case "Deliver":
